@@ -71,7 +71,7 @@ def search(model=None):
         if kv > 1e-7 * (1 + M**8):
             return {"reproduced": True, "what": "Kibble > 0 on a physical event", "input": ev, "observed": kv}
         # box classification on a grid point of the bounding box
-        m = np.sort(rng.uniform(0.0, 1.0, size=3))
+        m = rng.uniform(0.0, 1.0, size=3)  # any ordering of the three masses
         M0 = float(m.sum() + rng.uniform(0.05, 3))
         a1 = rng.uniform(0.02, 0.98)
         a2 = rng.uniform(0.02, 0.98)
@@ -248,8 +248,8 @@ def build(chk: Check) -> None:
     iv = chk.guarded("is_within_phasespace.result", lambda: t3.val(ind), F + "is_within_phasespace", replay=search) if kib_nodes else None
     if iv is not None:
         ov = t3.val(o)
-        chk.smt("is_within_phasespace==1|Kibble<=0", [kvar <= 0], iv.eq(CONE), function=F + "is_within_phasespace", replay=rep_kibble)
-        chk.smt("is_within_phasespace==outside_value|Kibble>0", [kvar > 0], iv.eq(ov), function=F + "is_within_phasespace")
+        chk.smt("is_within_phasespace==1|Kibble<=0", [kvar <= 0], iv.eq(CONE), function=F + "is_within_phasespace", replay=search)
+        chk.smt("is_within_phasespace==outside_value|Kibble>0", [kvar > 0], iv.eq(ov), function=F + "is_within_phasespace", replay=search)
 
     # ---------------- box classification ----------------
     # variables r = sqrt(sigma1) > 0, sigma2, masses.  E1* = N1/(2r), E3* = N3/(2r) in the (23) rest frame.
@@ -303,11 +303,8 @@ def build(chk: Check) -> None:
         hyp = [rb > 0, M0b > 0, lo_ <= hi_, rb * rb * kk == M0b * M0b * (4 * rb * rb * S2b - lo_) * (4 * rb * rb * S2b - hi_)]
         inside = z3.And(lo_ <= 4 * rb * rb * S2b, 4 * rb * rb * S2b <= hi_)
 
-        def rep_box(model):
-            return {"reproduced": False, "note": "composition lemma over abstract lo/hi; see L-factor for the concrete statement"}
-
         chk.smt("is_within_phasespace.box: value==1 iff lo<=sigma2<=hi else outside_value", hyp,
-                z3.And(z3.Implies(inside, iv5.eq(CONE)), z3.Implies(z3.Not(inside), iv5.eq(ov5))), function=F + "is_within_phasespace")
+                z3.And(z3.Implies(inside, iv5.eq(CONE)), z3.Implies(z3.Not(inside), iv5.eq(ov5))), function=F + "is_within_phasespace", replay=search)
     chk.smt("L-order: lo<=hi", roots, lo4 <= hi4, function=F + "is_within_phasespace", lemma=True, replay=search)
 
     # engine self-test
